@@ -5,6 +5,6 @@ CONSTANTS
   MaxIdle = 4
   PerSleeper = 2
   Stealing = FALSE
-  Variant = "none"
+  Variant = "steal_when_disabled"
 INVARIANTS TypeOK Conserved
 PROPERTIES StaysPut NoMigration
